@@ -94,6 +94,13 @@ def charts(draw, max_states=12, max_depth=4, p_hist=0.4, allow_final=True, root_
         for k, ch in enumerate(singles):
             if ch not in names:
                 names[(k * 7 + len(singles)) % n] = ch
+        # ... and sibling regions whose names are equal up to case ('s5' / 'S5')
+        for nd in nodes:
+            kids = nd['children']
+            if nd['kind'] == 'orthogonal' and len(kids) >= 2 and draw(st.booleans()):
+                twin = names[kids[0]].swapcase()
+                if twin != names[kids[0]] and twin not in names:
+                    names[kids[1]] = twin
         if len(set(names)) != n:
             names = ['s%d' % i for i in ids]
     states = []
